@@ -2,7 +2,7 @@
 comparison over whole sessions, sizes/ids versus files are not decided)."""
 from qv.core import AnalysisBroken
 from qv.esp import Engine, Outcome, TOP, fs
-from qv.lib import QHooks, branch_zero_test
+from qv.lib import QHooks, branch_zero_test, only_reached_through
 
 DOT = ord('.')
 
@@ -366,7 +366,6 @@ def run(ctx):
 
     # ---- 3. deletion discipline
     r3 = rep.rule('C19.3-deletion', 'R-EFFECT', 'a message file is unlinked only in QUIT for messages marked deleted; a message is marked only by DELE after msgno; RSET clears every mark; only undeleted new/ entries are renamed, to cur/...:2,')
-    from qv.lib import only_reached_through
     for target in ('unlink', 'rename'):
         okr, callers = only_reached_through(prog, u, target, {'pop3_quit'})
         r3.check(okr and bool(callers), '%s-reachable-only-from-QUIT' % target, u, '%s() is called from %s' % (target, callers))
@@ -404,8 +403,10 @@ def run(ctx):
             l = x.args[0].strip() if x.k == 'asg' and x.args and x.args[0] is not None else None
             if l is not None and l.k == 'mem' and l.n.get('f') == 'flagdeleted':
                 (clears if x.op == '=' and x.args[1].const == 0 else marks).append((fn.name, x.where))
-    r3.check(bool(marks) and {f for f, _ in marks} == {'pop3_dele'}, 'mark-only-in-DELE', u, 'marking sites: %s' % marks)
-    r3.check({f for f, _ in clears} <= {'pop3_rset', 'getlist'} and any(f == 'pop3_rset' for f, _ in clears), 'marks-cleared-only-by-RSET-(and-initialisation)', u, 'clearing sites: %s' % clears)
+    def under(fname, roots):
+        return fname in roots or only_reached_through(prog, u, fname, set(roots))[0]
+    r3.check(bool(marks) and all(under(f, {'pop3_dele'}) for f, _ in marks), 'mark-only-in-DELE', u, 'marking sites: %s' % marks)
+    r3.check(all(under(f, {'pop3_rset', 'getlist'}) for f, _ in clears) and any(under(f, {'pop3_rset'}) for f, _ in clears), 'marks-cleared-only-by-RSET-(and-initialisation)', u, 'clearing sites: %s' % clears)
     rs = prog.fn('pop3_rset', u)
     RH = TableHooks()
     RH.entry = 'pop3_rset'
@@ -425,8 +426,9 @@ def run(ctx):
     ok = bool(dr and cd and gl and cm) and any(branch_zero_test(c, t, lambda v: v.strip().k == 'call' and v.strip().callee == 'getuid') == 'zero' for c, t in mf.guards(dr[0]) or []) and \
         mf.dominates(cd[0], gl[0]) and mf.dominates(gl[0], cm[0]) and any(branch_zero_test(c, t, lambda v: v.strip().k == 'call' and v.strip().callee == 'getuid') == 'nonzero' for c, t in mf.guards(cd[0]) or [])
     r4.check(ok, 'root-refused<chdir<getlist<commands', u + ':main', '')
-    fills = [fn.name for fn in prog.functions() if fn.unit == u for x in fn.all_x() if x.k == 'asg' and x.args[0].src().endswith('.fn') and x.args[0].src().startswith('m[')]
-    r4.check(fills == ['getlist'], 'message-table-filled-only-by-getlist', u, 'm[i].fn assigned in %s' % fills)
+    fills = sorted({fn.name for fn in prog.functions() if fn.unit == u for x in fn.all_x()
+                    if x.k == 'asg' and x.args and x.args[0] is not None and x.args[0].strip().k == 'mem' and x.args[0].strip().n.get('f') == 'fn'})
+    r4.check(bool(fills) and all(f_ == 'getlist' or only_reached_through(prog, u, f_, {'getlist'})[0] for f_ in fills), 'message-table-filled-only-by-getlist', u, 'the file name of a message slot is assigned in %s' % fills)
     r4.expect_min(2)
 
     # ---- 5. qmail-popup
